@@ -50,6 +50,8 @@ def H(s):
 PLAIN = ['a', 'b', '-x', '-eu', '--flag=value', 'k=v', '=', '==x', 'two words', ' lead', 'trail ', 'a  b', 'tab\there',
          'l1\nl2', "it's", "'q'", 'back\\slash', '\\', '`id`', '*', '?', '[a-z]*', '*.c', '~', '{a,b}', '#c', ';', '&&', '|', '>',
          '<', '!', '%s%n', '-', '--', '0', 'x' * 300]
+# arguments around and beyond the sizes at which the buffers behind interpolation grow (1 KiB, 2 KiB, ...)
+LONG = ['y' * 1023, 'y' * 1024, 'z' * 1500, 'w' * 2048, 'v' * 5000, ('ab ' * 400), '${canvas-dir}/' + 'p' * 1100, 'q' * 1010 + '${canvas-name}']
 REF_OK = ['${canvas-name}', '${canvas-dir}', '${robsddir}', '${keep}', '${skip}', '${keep-dir}', '${exec-dir}', '${trace}',
           '${stat-interval}', '${keep-attic}', '${hook}']
 REF_EMPTYISH = ['${skip}', '${trace}', '${hook}']
@@ -59,6 +61,8 @@ REF_BAD = ['$', '${', '${}', '$x', '$$', '${nope}', '${step}', 'kill -9 $$', '$(
 
 def gen_arg(rng, allow_bad):
     r = rng.random()
+    if r < 0.05:
+        return rng.choice(LONG)
     if r < 0.40:
         return rng.choice(PLAIN)
     if r < 0.55:
